@@ -16,7 +16,7 @@ theorem refund_cases (s : State) (id : PoolId) (p : Pool) :
        (refundCoins p1.rules ≠ [] ∧ ∃ e, sendAll (zeroed s1 id p1) farmAcc p1.creator (refundCoins p1.rules) = .error e ∧
           refund s id p = (zeroed s1 id p1, some e)) ∨
        (refundCoins p1.rules ≠ [] ∧ ∃ s2, sendAll (zeroed s1 id p1) farmAcc p1.creator (refundCoins p1.rules) = .ok s2 ∧
-          refund s id p = (s2, none)))) := by
+          refund s id p = (creditIf (p1.creator == distrAcc) s2 (refundCoins p1.rules), none)))) := by
   unfold refund zeroed
   cases hu : updatePool (dequeue s id p.endH) id p 0 true with
   | mk s1 r =>
@@ -312,7 +312,7 @@ theorem inv_refund {s s' : State} {id : PoolId} {p : Pool} (hi : Inv s) (hp : ge
       subst hs'
       have hst : Stakes (zeroed s1 id p1) := by
         have := hst0; rw [hr] at this; exact Stakes.of_same this hi.stakes
-      refine ⟨⟨c1, hst, ?_⟩, hh1, hq1, gother, ⟨{ p1 with rules := zeroRules p1.rules }, gself, hend, hz0⟩⟩
+      refine ⟨⟨c1, hst, ?_, cpUsers_of_cp (updatePool_ok hu).cp hi.cpu⟩, hh1, hq1, gother, ⟨{ p1 with rules := zeroRules p1.rules }, gself, hend, hz0⟩⟩
       rw [moduleAccount_iff]
       intro d
       have : C05.remainingIn d p1.rules = 0 := by
@@ -320,7 +320,7 @@ theorem inv_refund {s s' : State} {id : PoolId} {p : Pool} (hi : Inv s) (hp : ge
       rw [hg1 d, hgap0 d, this]; rfl
     · -- the module account cannot pay: excluded by the module-account identity
       exfalso
-      have hcu := user_ne (hcre ▸ hw.user)
+      have hcu := creator_ne (hcre ▸ hw.user)
       have hcov : ∀ d, sumOf (refundCoins p1.rules) d ≤ (zeroed s1 id p1).bank.balOf farmAcc d := by
         intro d
         have g := hg1 d
@@ -333,21 +333,27 @@ theorem inv_refund {s s' : State} {id : PoolId} {p : Pool} (hi : Inv s) (hp : ge
       unfold sendAll at hs
       rw [hb'] at hs
       cases hs
-    · have hs' : s' = s2 := by
+    · have hs' : s' = creditIf (p1.creator == distrAcc) s2 (refundCoins p1.rules) := by
         rcases h with h | h
         · rw [hr] at h; simp only [Prod.mk.injEq] at h; exact h.1.symm
         · rw [hr] at h; simp only [Prod.mk.injEq] at h; cases h.2
       subst hs'
       have bo := (sendAll_ok hs).1
-      have hcu := user_ne (hcre ▸ hw.user)
-      have hst : Stakes s' := by
+      have hcu := creator_ne (hcre ▸ hw.user)
+      have hst : Stakes (creditIf (p1.creator == distrAcc) s2 (refundCoins p1.rules)) := by
         have := hst0; rw [hr] at this; exact Stakes.of_same this hi.stakes
-      refine ⟨⟨core_bankOnly bo c1, hst, ?_⟩, by rw [bo.height]; exact hh1, by rw [bo.queue]; exact hq1, ?_,
-              ⟨{ p1 with rules := zeroRules p1.rules }, by unfold getPool; rw [bo.pools]; exact gself, hend, hz0⟩⟩
+      have c2 : Core (creditIf (p1.creator == distrAcc) s2 (refundCoins p1.rules)) :=
+        core_quiet (cpFrame_withCp _ _).quiet (core_bankOnly bo c1)
+      refine ⟨⟨c2, hst, ?_, ?_⟩, by show s2.height = _; rw [bo.height]; exact hh1, by show s2.queue = _; rw [bo.queue]; exact hq1, ?_,
+              ⟨{ p1 with rules := zeroRules p1.rules }, by unfold getPool; show AMap.get? s2.pools id = _; rw [bo.pools]; exact gself, hend, hz0⟩⟩
       · rw [moduleAccount_iff]
         intro d
-        rw [gap_send_out hcu.1 hs d, hg1 d, hgap0 d, sumOf_refundCoins]; omega
-      · intro id2 e; unfold getPool; rw [bo.pools]; exact gother id2 e
+        have hgc : gap (creditIf (p1.creator == distrAcc) s2 (refundCoins p1.rules)) d = gap s2 d := gap_congr rfl rfl d
+        rw [hgc, gap_send_out hcu.1 hs d, hg1 d, hgap0 d, sumOf_refundCoins]; omega
+      · refine cpUsers_of_eq (s := s) ?_ ?_ hi.cpu
+        · show s2.cp.escrow = _; rw [bo.cp]; show s1.cp.escrow = _; rw [(updatePool_ok hu).cp]; rfl
+        · show s2.cp.props = _; rw [bo.cp]; show s1.cp.props = _; rw [(updatePool_ok hu).cp]; rfl
+      · intro id2 e; unfold getPool; show AMap.get? s2.pools id2 = _; rw [bo.pools]; exact gother id2 e
 
 /-- a pool that is not expired is active and has not passed its end height -/
 theorem active_of_not_expired {s : State} {id : PoolId} {p : Pool} (hc : Core s) (hp : getPool s id = some p)
